@@ -67,7 +67,18 @@ namespace riddle
             case INT_ID:
             case REAL_ID:
             case TP_ID:
-            case STRING_ID:
+            case STRING_ID: // either a primitive type method or a statement..
+            {
+                size_t c_pos = pos;
+                tk = next();
+                const bool is_method = match(ID_ID) && match(LPAREN_ID);
+                backtrack(c_pos);
+                if (is_method)
+                    ms.emplace_back(_method_declaration());
+                else
+                    stmnts.emplace_back(_statement());
+                break;
+            }
             case LBRACE_ID:
             case BANG_ID:
             case FACT_ID:
